@@ -161,6 +161,19 @@ var props = []*prop{
 		Thorough:    budget{Shards: 14, Checks: 100000, TimeoutS: 3000},
 	},
 	{
+		ID: "C11", Pkg: "c11", Level: "fault_enumeration",
+		Technique:   "property-based testing (rapid) with fault injection: for every generated workload the caller-supplied format checker is made to panic at its k-th invocation for EVERY k the workload reaches; differential against outcomes computed alone from reset pools",
+		LevelText:   "Fault points are enumerated exhaustively within each generated workload (k = 1..N checker invocations, N <= 64, plus the fault-free history containing the documented unresolvable-$ref panic), workloads are sampled. After each recovered panic the rest of the workload and a probe sequence over all (schema, instance) pairs must return what they return alone from fresh pools; half of the shards use the validatedebug pools (double redeem panics), and a drawn scribble mode overwrites every redeemed object.",
+		LevelNote:   "Trusted: the fuse registry (internal/reg Hook), panic capture, the verif redeem hook and scribbler. Panics raised elsewhere than a format checker or the documented schema panic are outside the statement and are not injected.",
+		Assumptions: trusted,
+		Builds: []buildVariant{
+			{Name: "plain", Tags: []string{"verif"}, ShardShare: 0.5},
+			{Name: "debug", Tags: []string{"verif", "validatedebug"}, ShardShare: 0.5, ChecksScale: 0.4},
+		},
+		Quick:    budget{Shards: 14, Checks: 1200, TimeoutS: 400},
+		Thorough: budget{Shards: 14, Checks: 30000, TimeoutS: 4000},
+	},
+	{
 		ID: "C12", Pkg: "c12", Level: "exploration",
 		Technique:   "property-based testing (rapid) with deep before/after snapshots of every input (instance, reference-free schema, parameter/header definition, loaded document)",
 		LevelText:   "Generated inputs of the C01/C16/C03 domains are validated through every entry point; each input is compared after the call with an independently built pristine copy (reflect.DeepEqual and JSON rendering; doc.Raw() bytes and doc.Spec() JSON for documents).",
